@@ -164,6 +164,13 @@ pub assume_specification[ proc_macro2::Ident::new ](s: &str, span: Span) -> (r: 
 /// identifiers compare by their text
 pub assume_specification[ <proc_macro2::Ident as core::cmp::PartialEq>::eq ](a: &proc_macro2::Ident, b: &proc_macro2::Ident) -> (r: bool)
     ensures r == (ident_str(a) == ident_str(b));
+/// `ident == "text"` (the generic `impl<T: AsRef<str>> PartialEq<T> for Ident`) compares the identifier's text
+pub uninterp spec fn as_ref_str<T: ?Sized>(t: &T) -> Seq<char>;
+#[verifier::allow(undeclared_external_trait)]
+pub assume_specification<T: ?Sized + core::convert::AsRef<str>>[ <proc_macro2::Ident as core::cmp::PartialEq<T>>::eq ](a: &proc_macro2::Ident, b: &T) -> (r: bool)
+    ensures r == (ident_str(a) == as_ref_str(b));
+pub axiom fn axiom_as_ref_str_literal(s: &&'static str)
+    ensures #[trigger] as_ref_str::<&'static str>(s) == (*s)@;
 pub assume_specification[ proc_macro2::Ident::span ](i: &proc_macro2::Ident) -> Span;
 pub assume_specification[ proc_macro2::Span::call_site ]() -> Span;
 pub assume_specification[ <proc_macro2::Ident as core::clone::Clone>::clone ](i: &proc_macro2::Ident) -> (r: proc_macro2::Ident)
@@ -211,6 +218,7 @@ syn_keyword!{
     ExMod, Mod, "mod";
     ExAuto, Auto, "auto";
     ExRef, Ref, "ref";
+    ExIn, In, "in";
 }
 syn_delim!{
     ExParen, Paren, Delim::Paren;
@@ -251,7 +259,6 @@ pub assume_specification[ syn::Lifetime::new ](symbol: &str, span: Span) -> (r: 
 
 syn_opaque_node!{
     ExAttribute, syn::Attribute, attribute_toks;
-    ExVisRestricted, syn::VisRestricted, vis_restricted_toks;
     ExTypeParamBound, syn::TypeParamBound, bound_toks;
     ExAbi, syn::Abi, abi_toks;
     ExVariadic, syn::Variadic, variadic_toks;
@@ -357,6 +364,7 @@ verus! {
 #[verifier::external_type_specification] pub struct ExLifetimeParam(syn::LifetimeParam);
 #[verifier::external_type_specification] pub struct ExConstParam(syn::ConstParam);
 #[verifier::external_type_specification] pub struct ExVisibility(syn::Visibility);
+#[verifier::external_type_specification] pub struct ExVisRestricted(syn::VisRestricted);
 #[verifier::external_type_specification] pub struct ExType(syn::Type);
 #[verifier::external_type_specification] pub struct ExTypeReference(syn::TypeReference);
 #[verifier::external_type_specification] pub struct ExTypeParen(syn::TypeParen);
@@ -384,6 +392,8 @@ syn_node_toks!{
     syn::LifetimeParam, lifetime_param_toks;
     syn::ConstParam, const_param_toks;
     syn::Visibility, visibility_toks;
+    syn::VisRestricted, vis_restricted_toks;
+    syn::PathSegment, path_segment_toks;
     syn::Type, type_toks;
     syn::Path, path_toks;
     syn::Pat, pat_toks;
